@@ -609,7 +609,7 @@ def s10():
            'strengthened — noted in the last column, and in §11); %d not detected. Re-run status at the end of session 3: every kept seed was\n'
            'run again in session 3 - the earlier seeds of C01–C10 after the engine repair, the 54 seeds of rounds 3 and 4 and the earlier seeds\n'
            'of C11–C19 against the final engine (`tools/seed_regress.py --older`), the five patches re-created after the last two repairs\n'
-           'once more - and every one ended exit 1. C01 and C11 sample their bit-precise jobs\n'
+           'once more - and every one ended exit 1. Session 4 (33 minutes) added a fifth round of four blind seeds (C06, C14, C17, C19: all state-dependent memo/eviction changes); C14, C17, C19 were reported as VIOLATION by the unchanged checks, the C06 one (a memo of the rounded fraction text keyed by `(round(frac, 3), prec)`) made the check end INCONCLUSIVE (exit 2) both before and after the history clause for `format_seconds_as_time` was added - it is the one row marked NOT DETECTED below and the first open item for the next session. C01 and C11 sample their bit-precise jobs\n'
            'in the quick tier, so for a few seeds detection depends on VERIF_SEED (noted per seed); the thorough tier runs every job.\n\n' % (n, n - len(miss), len(miss)),
            '| property | seed | change | result |\n|---|---|---|---|\n']
     for r in rows:
